@@ -167,8 +167,7 @@ func init() {
 	})
 }
 
-func runC14(c *CaseCtx) CaseResult {
-	var res CaseResult
+func runC14(c *CaseCtx) (res CaseResult) {
 	r := caseRand(c.Seed, "C14", c.Idx)
 	if c.Idx%16 == 0 {
 		return runC14Static(c, r)
@@ -322,8 +321,7 @@ func runC14(c *CaseCtx) CaseResult {
 	return res
 }
 
-func runC14Static(c *CaseCtx, r *rand.Rand) CaseResult {
-	var res CaseResult
+func runC14Static(c *CaseCtx, r *rand.Rand) (res CaseResult) {
 	k := (c.Idx / 16) % (len(staticCases) + 7)
 	res.NonTrivial = true
 	if k >= len(staticCases) {
@@ -397,8 +395,7 @@ func init() {
 	})
 }
 
-func runC17(c *CaseCtx) CaseResult {
-	var res CaseResult
+func runC17(c *CaseCtx) (res CaseResult) {
 	r := caseRand(c.Seed, "C17", c.Idx)
 	k := r.Intn(5)
 	var outT []reflect.Type
@@ -555,8 +552,7 @@ func init() {
 	})
 }
 
-func runC16(c *CaseCtx) CaseResult {
-	var res CaseResult
+func runC16(c *CaseCtx) (res CaseResult) {
 	r := caseRand(c.Seed, "C16", c.Idx)
 	names := []string{"alpha", "beta", "gamma", "dx"}
 	var ls []xLabel
